@@ -73,7 +73,17 @@ VARIES = (
     "that are successive counters, tool runs that are turned down when their output file already "
     "exists, objects used on after they refused an input, device queries failing with a status "
     "word at every admin-tool step, images that are links to one another, repeated targets, "
-    "certificate chains ending in keys of other curves")
+    "certificate chains ending in keys of other curves, failed or successful heartbeats before "
+    "any other request, transactions that are near copies of the previous one, devices of every "
+    "network (mainnet / testnet / regtest), devices that answer after minutes over the TCP "
+    "transports, devices that cut block headers short, the same manager serving ancestor updates "
+    "and advances in any order, one certificate object validated with several roots, PEM bodies "
+    "of every ending, the operator's process environment (COLUMNS, LINES, TERM, LANG, LC_ALL, "
+    "HOME), the PIN file handled by somebody else while the manager runs, quiet periods before "
+    "a link failure (monotonic clock too), legacy-mode managers under concurrency, a device "
+    "stuck in the bootloader after a heartbeat, signer iterations over the whole 16-bit range, "
+    "NaN / Infinity as names, private keys given with 0x prefixes or with zero digits at an "
+    "end, empty strings as option values, one-time keys with zero-leading coordinates")
 
 IDEAS = (
     "a code path only reached through a rarely used command-line option, environment variable or "
